@@ -132,10 +132,14 @@ def eval_case(ctx, case):
     present = {"altered": altered, "removed": removed, "new": new}
     op = {"verify": ["verify", {"root": ""}], "diff": ["diff", {"root": ""}],
           "create": ops.create("", case.get("fmts") or ["xxh64"])}[cmd]
+    if case.get("spell") or case.get("v"):   # the root folder as a user may spell it / verbose output
+        op = [op[0], dict(op[1], spell=case.get("spell"), v=bool(case.get("v")))]
     res, post = ops.run_cmd(ctx, t, op, sub.NOW0 + 500, mtimes=mt)
     v = []
     sig = {"cmd": cmd, "base": case["name"], "classes": "+".join(k for k in ("altered", "removed", "new") if present[k]) or "none",
            "exit": res.exit}
+    if case.get("spell") or case.get("v"):
+        sig["form"] = (case.get("spell") or "") + ("-v" if case.get("v") else "")
 
     def V(kind, detail, **extra):
         v.append(Viol(PROP, kind, dict(sig, **extra), detail, case))
@@ -143,7 +147,8 @@ def eval_case(ctx, case):
     want = {CODES[cmd][k] for k in present if present[k] and k in CODES[cmd]}
     if present["altered"] and cmd in ("verify", "create"):
         want = {11}   # "if a recorded file's content was altered, verify and create exit with 11" - whatever else changed
-    desc = f"{case['name']} + {[m[0] for m in muts]} -> {cmd}"
+    desc = f"{case['name']} + {[m[0] for m in muts]} -> {cmd}" + (f" (root spelled '{case['spell']}')" if case.get("spell") else "") + \
+        (" -v" if case.get("v") else "")
     if res.exc is not None:
         V("abort", f"{desc}: exit {res.exit} {res.exc} {res.tb}", exc=res.exc.split(":")[0])
         return v
@@ -197,6 +202,10 @@ def main(tier, seed):
             states.add((engine.canon(t), tuple(sorted(mt))))
             for cmd in ("verify", "diff", "create"):
                 cases.append({"name": name, "base": tree, "pats": pats, "muts": ms, "cmd": cmd})
+                if len(ms) <= 1 and name in ("flat1", "nested1", "ignore-negated-anchored"):
+                    for sp in ("slash", "slashdot", "dot", "rel"):
+                        cases.append({"name": name, "base": tree, "pats": pats, "muts": ms, "cmd": cmd, "spell": sp})
+                    cases.append({"name": name, "base": tree, "pats": pats, "muts": ms, "cmd": cmd, "v": True})
     res = eng.pmap(work, cases)
     for case, vs in zip(cases, res):
         eng.add_viols(vs)
@@ -209,7 +218,8 @@ def main(tier, seed):
                    "generation, empty folder, directories only, -sf then folder) x every single mutation (flip/append/truncate/"
                    "delete of every file, rmdir of every empty directory, add a file in every directory, touch of every entry, "
                    "create/modify/delete of ignored files) and every pair (quick: on three bases; thorough: everywhere, "
-                   "triples on flat1) x {verify, diff, create}; expected exit-code class and named paths derived from the "
+                   "triples on flat1) x {verify, diff, create}; single mutations on three bases also with the root spelled 'dir/', 'dir/.', '.', "
+                   "'./dir' and with -v; expected exit-code class and named paths derived from the "
                    "tree difference"}
     eng.assumptions.append("combined failures: any code of a failure class that is present for that command is accepted (the statement ranks none)")
     return eng.finish(cov, eval_case)
